@@ -529,6 +529,10 @@ class Unit:
             if icfg.get("w6", self.cfg.get("w6", False)):
                 text = w6_message_text(text, self.report, itemname)
             text = w9_panic_args(text, self.report, itemname)
+            dm = icfg.get("drop_macros", self.cfg.get("drop_macros"))
+            if dm:
+                # W6: logging macro invocations (slog `debug!`/`error!`/..) become the unit value
+                text = strip_macro_calls(text, dm, "()", self.report, itemname, "W6")
             text = apply_token_substs(text, substs, self.report, itemname)
             sp = self._splice_for(fname, variant, owner)
             text = splice_fn(text, sp, itemname, vacuity)
@@ -588,6 +592,16 @@ class Unit:
                         self.report.add("W0", label, "elided `'static` lifetime of a const item written out")
                 text = fr.apply()
             text = publicise(text, it.kind, self.report, label)
+            self.spans.append({"item": label, "file": relfile, "lines": [src.line_of(it.start), src.line_of(it.end - 1)], "sha256": sha})
+            return Chunk("repo", label, text, relfile, (src.line_of(it.start), src.line_of(it.end - 1)), sha, [])
+
+        if it.kind == "trait":
+            # a trait declaration (signatures only) is copied whole
+            raw = src.text_of(it)
+            sha = hashlib.sha256(raw.encode()).hexdigest()
+            text = apply_token_substs(strip_attributes(raw, self.report, label), substs, self.report, label)
+            if not text.lstrip().startswith("pub"):
+                text = "pub " + text
             self.spans.append({"item": label, "file": relfile, "lines": [src.line_of(it.start), src.line_of(it.end - 1)], "sha256": sha})
             return Chunk("repo", label, text, relfile, (src.line_of(it.start), src.line_of(it.end - 1)), sha, [])
 
